@@ -42,6 +42,10 @@ PROPS = {
                    "FitBase / ParametricModelBaseMixin / both constraint classes / MultiFit equals the documented formula; chi2 probability is "
                    "1 - chi2.cdf(cost - determinant, ndf) with every determinant subtraction guarded by the flag that says the cost contains it; goodness of "
                    "fit = cost(det:=0) - handle(model:=data); MultiFit overrides keep the terms of the base definitions."),
+    "C06": ("c06", "Path rules on FitBase.do_fit (each minimiser run bracketed by freeze / release of the same node list with the same flag, data reference before "
+                   "the first pass, reset before every refit, refit iff dynamic uncertainties); sibling agreement of the refit predicates and MultiFit delegation; "
+                   "fix / release / limit / unlimit forwarded, recorded and re-applied by every backend (iminuit rebuild applies value, fixed flag and limits of every "
+                   "parameter unconditionally); scipy argument re-packing uses one index map for packing and unpacking; float parameter store."),
     "C16": ("c16", "Canonical-form equality of the two conversion formulas with their documented forms; proof that they are mutual inverses by composing the "
                    "extracted expressions and rewriting with the inverse pair gammainccinv/gammaincc (both directions normalise to the identity); the contour "
                    "level 1-exp(-s^2/2) equals the n=2 instance; setters clear the other representation; dimension of every ConfidenceLevel call site; "
